@@ -155,6 +155,31 @@ def check_long(case):
     return Res(list(seen.items()), o=(ma < 0,), tr=ntr)
 
 
+def cases_keep(tier, seed):
+    return [(linear, k) for linear in (False, True) for k in range(4)]
+
+
+def check_keep(case):
+    """synchronise several clock pairs, then use the maps: a map obtained earlier is not altered by later calls"""
+    linear, k = case
+    n = 60
+    ta = base_train(n, 5 + k)
+    pairs = [(37.3 + k, 12.5), (-80.0, -140.2 - k), (100.0, 3.3), (0.0, 60.0)]
+    fcns = []
+    for drift, offset in pairs:
+        tb = ta * (1 + drift * 1e-6) + offset
+        f, d = utils.sync_timestamps(ta, tb, linear=linear)
+        fcns.append(f)
+    v = []
+    for (drift, offset), f in zip(pairs, fcns):
+        err = np.max(np.abs(np.asarray(f(ta[5:-5]), dtype=float) - (ta[5:-5] * (1 + drift * 1e-6) + offset)))
+        if not err <= 2e-3:
+            v.append(("map-altered-by-later-call", "linear=%s: the map fitted for drift %r ppm / offset %r s is off by %.3g s once other clock pairs have been synchronised"
+                      % (linear, drift, offset, err)))
+            break
+    return Res(v, o=(linear,), tr=len(pairs))
+
+
 CHECK = {
     "property": "C19",
     "rule": "one case = (base train, index of the event missing on side a); the check enumerates every index missing on side b x 5 drifts x 6 offsets x "
@@ -167,6 +192,7 @@ CHECK = {
     "clauses": [
         Clause("missing<=1+1", "every placement of <= 1 missing event on each side", cases=cases_one, check=check_one, setup=_setup),
         Clause("missing<=2", "every placement of 2 missing events on one side x {0,1} on the other", cases=cases_two, check=check_two, setup=_setup),
+        Clause("kept-maps", "maps returned by earlier calls stay valid after later calls", cases=cases_keep, check=check_keep, setup=_setup),
         Clause("long-trains", "300 events over > 2000 s at +-100 ppm: placements of one missing event per side on a stride", cases=cases_long, check=check_long, setup=_setup),
     ],
 }
